@@ -4,6 +4,7 @@ from __future__ import annotations
 from checks import ctxcommon
 
 PROP = "C01"
+GENERATED = ['OpSemantics', 'DtypeTables']  # generated files this check's tie depends on
 LEAN_MODULES = ["Properties.C01"]
 RULE = (
     "corpus (witnesses of past findings) first; then seeded contexts: pick an assignment of sizes to names a,b,d (c,e derived) and tuples to "
